@@ -32,6 +32,7 @@ type c04EngReq struct {
 	Arg    int       `json:"arg,omitempty"`
 	Shape  string    `json:"shape,omitempty"`
 	G      int       `json:"g,omitempty"` // addressed group
+	Sp     int       `json:"sp,omitempty"`    // spelling of the route path on the request line (c04Respell), 0 = canonical
 	Abort  bool      `json:"abort,omitempty"` // the body reader fails after At bytes
 	At     int       `json:"at,omitempty"`
 }
@@ -158,19 +159,28 @@ func c04EngInterp(t *testing.T, c c04EngCase) (v kit.Verdict) {
 			// wire form
 			ts := now.Unix() + rq.Off
 			sr := rq.Req
+			// the request line carries a (possibly non-canonical) spelling of the route path;
+			// the router dispatches on the cleaned path, the signature covers the path AS SENT
+			sent := c04Respell(route, rq.Sp)
+			if sent != route {
+				classes["respelled-route-path"] = true
+			}
 			if !sr.ReqURI {
-				sr.Path = route
+				sr.Path = sent
 			}
 			wire := c04Sign(sr, ts)
 			if sr.ReqURI {
 				// the route is reached through the request line, the signature covers X-Request-Uri
-				wire.URLPath = route
+				wire.URLPath = sent
 				classes["x-request-uri"] = true
 			}
 			tampered := false
 			if !rq.Signed {
 				wire.NoHeader = true
 			} else if rq.Tamper != "" && (rq.Tamper != "path" || sr.ReqURI) {
+				if rq.Tamper == "path-spelling" {
+					classes["tamper:path-spelling"] = true
+				}
 				wire, tampered = c04Tamper(wire, sr, ts, rq.Tamper, rq.Arg)
 				if tampered {
 					wire.Shape = rq.Shape
@@ -380,6 +390,7 @@ func c04EngGen(rt *rapid.T) c04EngCase {
 	for i := 0; i < n; i++ {
 		rq := c04EngReq{Adv: rapid.SampledFrom([]int{0, 0, 1, 2, 3600, 90000}).Draw(rt, "adv")}
 		rq.G = rapid.IntRange(0, ng-1).Draw(rt, "group")
+		rq.Sp = rapid.SampledFrom([]int{0, 0, 0, 1, 2, 3, 4, 5}).Draw(rt, "spelling")
 		g := c.Groups[rq.G]
 		rq.Req = c04GenSigReq(rt)
 		if g.Jwt || rapid.IntRange(0, 3).Draw(rt, "tok?") == 0 {
